@@ -1413,6 +1413,10 @@ func (p *PubSub) announceRetry(pid peer.ID, topic string, sub bool) {
 
 	retry := func() {
 		_, okSubs := p.mySubs[topic]
+		if t, found := p.myTopics[topic]; found && t.fanoutOnly {
+			// subscriptions to a fanout-only topic are not announced
+			okSubs = false
+		}
 		_, okRelays := p.myRelays[topic]
 
 		ok := okSubs || okRelays
